@@ -128,7 +128,8 @@ func KindSet(dmg []Damage) string {
 //     siblings' ("empty" = exactly the header stays apart: the coder takes a 0-length shard as absent);
 //   - for the outcome "wrong-bytes", missing shards are left out of the name when another kind is
 //     present: an absent file contributes no bytes, it only removes redundancy or makes the decoder
-//     look at the next shard, and the kind that supplied the wrong bytes is the one to name.
+//     look at the next shard, and the kind that supplied the wrong bytes is the one to name;
+//   - a culprit that needs a pad-count flip to produce wrong bytes or a panic is named "badpad" alone.
 func SigKinds(dmg []Damage, class string) string {
 	m := map[string]bool{}
 	for _, d := range dmg {
@@ -143,6 +144,12 @@ func SigKinds(dmg []Damage, class string) string {
 	}
 	if class == "wrong-bytes" && len(m) > 1 {
 		delete(m, KMissing)
+	}
+	if (class == "wrong-bytes" || class == "panic") && m[KBadPad] {
+		// The culprit is minimal, so the pad-count flip is necessary for the violation. The pad count is
+		// the one byte of a shard file that no checksum covers; whatever else is damaged can only have
+		// taken away the shards whose (good) pad count would have been used instead.
+		m = map[string]bool{KBadPad: true}
 	}
 	var ks []string
 	for k := range m {
